@@ -316,6 +316,16 @@ class Projector:
                 "pm": am, "doff": ts(t.delay_offset), "m": tp_m.get((o, k), ""),
                 "alloc": self.alloc_time.get((o, k), NONE_T),
             })
+        # a workflow node of a planned observation for which the plan has no task:
+        # reported as a task that does not exist (status MISSING), so that the
+        # specification's clauses have a verdict on it
+        nodes = {ob["o"]: [n["k"] for n in ob["wf"]["nodes"]] for ob in self.cfg.get("obs", [])}
+        for o in self.plans:
+            for k in nodes.get(o, []):
+                if (o, k) not in self.all_tasks:
+                    tasks.append({"o": o, "k": k, "status": "MISSING", "ast": NONE_T, "aft": NONE_T, "dur": 0,
+                                  "flag": False, "pm": "", "doff": 0, "m": "", "alloc": NONE_T})
+        tasks.sort(key=lambda r: (r["o"], r["k"]))
         obs = []
         for ob in sim.instrument.observations:
             plan = ob.plan
